@@ -1,20 +1,27 @@
 ------------------------------ MODULE Storage ------------------------------
 (***************************************************************************)
 (* Specification of rspirv::sr::storage::Storage (property C19): a dense,  *)
-(* append-only value list addressed by tokens.  Eq is the element type's   *)
-(* equality, which need not be reflexive (the value "nan" is unequal to    *)
-(* itself, like f64::NAN).                                                 *)
+(* append-only value list addressed by tokens.  Values are records         *)
+(* [k, t, m]: an equality class k, a tag t that makes equal values         *)
+(* distinguishable (+0.0 / -0.0), and the element type's equality mode m:  *)
+(*   "std"      equal iff same class (tags ignored)                        *)
+(*   "nan"      unequal to everything, itself included (f64::NAN)          *)
+(*   "difftag"  equal iff same class and DIFFERENT tag (an arbitrary,      *)
+(*              non-reflexive equality)                                    *)
 (***************************************************************************)
 EXTENDS Integers, Sequences, FiniteSets
 
-Eq(x, y) == x = y /\ x # "nan"
+Eq(x, y) == /\ x.m # "nan" /\ y.m # "nan" /\ x.k = y.k
+            /\ (x.m = "difftag" => x.t # y.t)
 
 \* [data', tok]: outcome of the two operations on the value list `data'
 AppendOp(data, v) == [data |-> Append(data, v), tok |-> Len(data)]          \* "the n-th appended value has index n-1"
 FetchOrAppend(data, v) ==
+  \* "returns the token of the first stored value equal to the argument when one exists" (stored d, argument v: d == v)
   LET hits == {i \in 1..Len(data) : Eq(data[i], v)} IN
-  IF hits # {} THEN [data |-> data, tok |-> (CHOOSE i \in hits : \A j \in hits : i <= j) - 1]   \* the FIRST equal value
+  IF hits # {} THEN [data |-> data, tok |-> (CHOOSE i \in hits : \A j \in hits : i <= j) - 1]
   ELSE AppendOp(data, v)
 Apply(data, op, v) == IF op = "append" THEN AppendOp(data, v) ELSE FetchOrAppend(data, v)
+\* a lookup yields the STORED value itself (its tag included), not merely an equal one
 Lookup(data, tok) == data[tok + 1]
 =============================================================================
